@@ -115,7 +115,24 @@ class C02(PropertyCheck):
             'non-trivial = the program writes output or evaluates an error value or calls a user function')
 
     def generate(self, rng, tier):
-        return []
+        # literal magnitudes are unbounded: two operands beyond 64 bits whose sum / difference falls back inside, then compared with
+        # and printed next to a small literal (the reference evaluator computes over Z: the expectation is plain arithmetic)
+        from lib.runner import Case
+        cases = []
+
+        def lit(n):
+            return f'(-{-n})' if n < 0 else str(n)
+        for k in range(24 if tier == 'quick' else 200):
+            x = rng.choice([2 ** 63, 2 ** 64, 2 ** 70, 10 ** 30, 2 ** 127, rng.randint(2 ** 63, 2 ** 100)])
+            sm = rng.choice([0, 1, -1, 5, -7, 1000, rng.randint(-1000, 1000)])
+            shape = rng.randrange(4)
+            a, b, op = [(x + sm, -x, '+'), (x + sm, x, '-'), (-x, x + sm, '+'), (x, x - sm, '-')][shape]
+            fn = {'+': 'add', '-': 'sub'}[op]
+            spell = rng.choice([f'({lit(a)} {op} {lit(b)})', f'{fn}({lit(a)}, {lit(b)})', f'({lit(a)}).{fn}({lit(b)})'])
+            body = (f'to_str({spell}) + "|" + to_str({spell} == {lit(sm)}) + to_str({spell} < {lit(sm + 1)}) + to_str({spell} != {lit(sm)})'
+                    f' + to_str([{spell}] == [{lit(sm)}]) + to_str({spell} * 2 == {lit(2 * sm)})')
+            cases.append(Case(f'cancel|{spell}', 'bigint-cancel', body, None, 'str', '', None, None, f'{sm}|truetruefalsetruetrue'))
+        return cases
 
     def pre_build(self):
         # the operator table (parser.rs CLIMBER, xray.pest tokens, book list) is re-extracted into coq/Extracted/Ops.v
